@@ -100,6 +100,8 @@ class Prop(common.PropertyCheck):
         yield dict(base_case, mef_form='ndarray', saturate=True, K=7, sizes=[400] * 7, seed=rng.randrange(1 << 30))
         # three clustering channels, subpopulations of more than 500 events, diagnostic plots on: same outcome as without plots
         yield dict(base_case, nch=3, K=8, sizes=[620] * 8, plot=True, seed=rng.randrange(1 << 30))
+        # default clustering / selection after earlier calls that passed explicit rescaling options
+        yield dict(base_case, K=7, sizes=[420] * 7, warmup=True, seed=rng.randrange(1 << 30))
         # exactly three subpopulations left for the fit (brightest saturated, two values unknown)
         yield dict(base_case, K=6, saturate=True, unknown=[(0, 1), (0, 3)], nch=1, seed=rng.randrange(1 << 30))
         # corner of the envelope: tightly spaced populations, autofluorescence close to half the dimmest bead, large intercept, no blank
@@ -169,10 +171,24 @@ class Prop(common.PropertyCheck):
                     'stats': [[bits(v) for v in s] for s in res.statistic['values']],
                     'rfi': [[bits(v) for v in s] for s in res.selection['rfi']], 'mef': [[bits(v) for v in s] for s in res.selection['mef']],
                     'params': [[float(v) for v in p] for p in res.fitting['beads_params']]}
+        # earlier calls in the same process with explicit rescaling options (settings must not carry over to later default calls)
+        if case.get('warmup'):
+            try:
+                np.random.seed(3)
+                FlowCal.mef.get_transform_fxn(d, mv_arg, chans, clustering_channels=clch, clustering_params={'scale': 'log'})
+                FlowCal.mef.get_transform_fxn(d, mv_arg, chans, clustering_channels=clch, selection_params={'scale': 'linear'})
+            except Exception:
+                pass
         # (i) injected true labels
         try:
             r1 = run(lambda data, n, **kw: true_labels.copy())
             out['inj'] = summarise(r1)
+            # the returned function applied to the same events with the columns in another order converts the same channels
+            if nch >= 2:
+                order = list(reversed(range(d.shape[1])))
+                a1 = np.asarray(r1.transform_fxn(d, chans))[:, order]
+                a2 = np.asarray(r1.transform_fxn(d[:, order], chans))
+                out['layout_ok'] = bool(np.array_equal(a1, a2))
         except Exception as e:
             out['inj_err'] = type(e).__name__ + ':' + str(e)[:100]
             return out
@@ -285,6 +301,8 @@ class Prop(common.PropertyCheck):
                 problems.append('not reproducible for a fixed random seed')
             if impl['partition_recovered'] and not impl['order_invariant']:
                 problems.append('outcome depends on the order of events')
+        if impl.get('layout_ok') is False:
+            problems.append('the returned transformation converts other columns when the sample has its channels in another order than the bead file')
         if impl.get('plot_same') not in (None, True):
             problems.append('with the diagnostic plots switched on the statistics / selected pairs / fit differ from the run without plots (%s)' % impl['plot_same'])
         if impl.get('mef_table_unchanged') is False:
